@@ -396,6 +396,9 @@ func apiArg(l Label, v interface{}, variant int) am.Arg {
 	default:
 		switch variant % 3 {
 		case 0:
+			if variant == 3 {
+				return am.Typed(nil, v) // a nil value among several is ignored, the others count
+			}
 			return am.Typed(v)
 		case 1:
 			return am.TypedSubtype(v, "")
